@@ -106,6 +106,10 @@ func (p *P0x9208) String() string {
 
 func (p *P9208AlarmSign) parse(data []byte) {
 	idLen := p.getTerminalIDLen()
+	if len(data) < idLen+8 {
+		*p = P9208AlarmSign{ActiveSafetyType: p.ActiveSafetyType}
+		return
+	}
 	p.TerminalID = string(bytes.Trim(data[:idLen], "\x00"))
 	p.Time = utils.BCD2Time(data[idLen : idLen+6])
 	p.SerialNumber = data[idLen+6]
